@@ -2,7 +2,13 @@
    Spec.scope_of (own declarations, then inherited bindings not re-declared); names resolve to the
    first binding of their prefix; duplicate declarations are detected; the 2^16 limit.
    (scopes_refine carries the hypothesis that the parent's scope has unique prefixes, which
-   scope_prefixes_unique re-establishes.)
+   scope_prefixes_unique re-establishes.)  Whole documents on the fragment of Spec/CstNs.v (the Cst fragment with
+   qualified names and xmlns / xmlns:p declarations interleaved with attributes; empty URIs, xml:lang, p:xmlns
+   attributes included): every rendering of a namespace-well-formed abstract document parses to exactly its
+   meaning, where the tag's namespace, each attribute's namespace and each element's in-scope list
+   (Node::namespaces()) are computed ONLY with Spec/Scope.v from the WRITTEN declarations and the parent's scope
+   (parse_render_sem_ns: view = Some (sem c)).  Two resource hypotheses, stated with spec functions: at most 65535
+   distinct declared bindings (the documented limit) and a namespace table within u32::MAX entries.
    Statements are pinned here (copied verbatim from the proof files by tools/pin_props.py);
    each is re-proved by `exact` and followed by Print Assumptions. *)
 From Coq Require Import Ascii String.
@@ -11,7 +17,8 @@ Import ListNotations.
 From RX Require Import Generated.
 From RX.Model Require Import Base CharClass Stream Tokenizer Doc Builder Parse Api.
 From RX.Spec Require Scope.
-From RX.Proofs Require Import ScopeProofs ScopeParse.
+From RX.Spec Require Cst CstNs.
+From RX.Proofs Require Import ScopeProofs ScopeParse CstNsView CstNsMain.
 Open Scope N_scope.
 
 (* ---- Proofs/ScopeParse.v ---- *)
@@ -110,3 +117,31 @@ Theorem C06_ns_values_limit_is :
   ns_values_limit = 65535.
 Proof. exact ns_values_limit_is. Qed.
 Print Assumptions C06_ns_values_limit_is.
+
+(* ---- Proofs/CstNsMain.v ---- *)
+Module G2.
+Import CstNs.
+Theorem C06_parse_render_sem_ns :
+  forall (c : doc) (opt : options),
+  wf_doc c = true ->
+  N.of_nat (length (sem c)) < nodes_limit opt ->               (* room for all nodes + the Root *)
+  N.of_nat (length (render c)) <= u32_max ->                    (* the input is at most u32::MAX bytes long *)
+  distinct_decls_le (d_root c) (N.to_nat 65535) ->              (* at most 65535 distinct declared bindings *)
+  1 + N.of_nat (ns_cost [] (d_root c)) <= u32_max ->            (* the namespace table fits *)
+  exists d, parse (render c) opt = Ok d /\ view (render c) d = Some (sem c).
+Proof. exact parse_render_sem_ns. Qed.
+Print Assumptions C06_parse_render_sem_ns.
+
+Theorem C06_layout_insensitive_ns :
+  forall c1 c2 opt,
+  wf_doc c1 = true -> wf_doc c2 = true -> sem c1 = sem c2 ->
+  N.of_nat (length (sem c1)) < nodes_limit opt ->
+  N.of_nat (length (render c1)) <= u32_max -> N.of_nat (length (render c2)) <= u32_max ->
+  distinct_decls_le (d_root c1) (N.to_nat 65535) -> distinct_decls_le (d_root c2) (N.to_nat 65535) ->
+  1 + N.of_nat (ns_cost [] (d_root c1)) <= u32_max -> 1 + N.of_nat (ns_cost [] (d_root c2)) <= u32_max ->
+  exists d1 d2, parse (render c1) opt = Ok d1 /\ parse (render c2) opt = Ok d2 /\
+                view (render c1) d1 = view (render c2) d2.
+Proof. exact layout_insensitive_ns. Qed.
+Print Assumptions C06_layout_insensitive_ns.
+
+End G2.
